@@ -182,10 +182,16 @@ pub fn generate(thorough: bool, seed: u64, out: &mut dyn Write) {
             _ => {
                 let lods = rng.range(1, 3);
                 let mut secs = vec![];
-                for s in 0..8usize {
-                    // stack runtime v0 i0 v1 i1 v2 i2
-                    let lod = if s < 2 { 0 } else { (s - 2) / 2 };
-                    let present = s < 2 && rng.chance(9, 10) || s >= 2 && (lod as u64) < lods && rng.chance(5, 6) || rng.chance(1, 10);
+                let with_edge = rng.chance(1, 3);
+                for s in 0..11usize {
+                    // stack runtime v0 e0 i0 v1 e1 i1 v2 e2 i2
+                    let lod = if s < 2 { 0 } else { (s - 2) / 3 };
+                    let is_edge = s >= 2 && (s - 2) % 3 == 1;
+                    let present = if is_edge {
+                        with_edge && (lod as u64) < lods && rng.chance(2, 3)
+                    } else {
+                        s < 2 && rng.chance(9, 10) || s >= 2 && (lod as u64) < lods && rng.chance(5, 6) || rng.chance(1, 10)
+                    };
                     if !present {
                         secs.push("-".to_string());
                         continue;
